@@ -62,10 +62,12 @@ checks = {
  "C12": ("E-SCHED+TSAN+MIRI", "exploration", "runtime monitoring: vector-clock happens-before monitor over the reported memory orderings + ThreadSanitizer on free-running threads + Miri data-race detection",
          "Three observers: (1) M-hb builds vector clocks from the Ordering arguments the code actually passes (release sequences, failed-CAS orderings) and checks every zeroing event and hand-out of a previously released byte against the releasing thread's clock, and the backing-store free against every other thread's last access; atomic reads/writes of bytes that are user data are reported by the trace rule; (2) ThreadSanitizer runs the same programs with truly parallel threads whose buffer accesses are plain; (3) Miri runs small programs with its data-race detector and weak-memory emulation.",
          "M-hb is exact only for the serialised executions produced; Miri programs are small (<=14 operations per thread); TSan understands only synchronisation it intercepts (all of it here is std/core atomics).", "§4 C12"),
+ "C06": ("E-CRASH", "fault_enumeration", "runtime monitoring with fault injection: crash images taken at every atomic access of executed operations, each reopened and run through a recovery oracle; real abort() children validate the snapshot shortcut",
+         "For every operation under test of generated file-backed histories, the page-cache image at every point between two consecutive atomic accesses (plus before the first and after the last) is reopened with map_mut and checked: opens, cursor in range, previously returned and unreleased ranges keep their bytes and are never handed out again by an allocation storm, every call terminates within a logical step budget. The fault points of each executed operation are enumerated completely; histories are sampled.",
+         "Process death only (no torn or reordered page write-back); step budget 20000 atomic accesses per call; unsync::Arena has no atomic accesses, so its crash points are operation boundaries.", "§3 E-CRASH, §4 C06"),
 }
 
 not_applicable = {
- "C06": "check under construction (crash-point sweep); not yet claimed",
 }
 
 def main():
@@ -89,6 +91,7 @@ def main():
         {"name": "E-FILE", "path": "harness/src/files.rs", "serves_properties": ["C09"], "kind_free_text": "file mutation sweep + read-only call matrix"},
         {"name": "E-SCHED", "path": "harness/src/sched.rs", "serves_properties": ["C02","C07","C12","C13"], "kind_free_text": "hook-serialised schedule fuzzer with online monitors (shadow map, trace rule, progress, vector clocks, refs)"},
         {"name": "E-FREE", "path": "harness/src/free.rs", "serves_properties": ["C02","C07","C12","C13"], "kind_free_text": "free-running parallel stress for rel/ASan/TSan/Miri builds; delays injected from the hook without locks"},
+        {"name": "E-CRASH", "path": "harness/src/crash.rs", "serves_properties": ["C06"], "kind_free_text": "crash-point sweep: snapshot at every atomic access + recovery oracle + abort() validation children"},
       ],
       "checks": [],
       "not_applicable": [{"property_id":k,"reason":v} for k,v in sorted(not_applicable.items()) if k not in checks],
